@@ -4,7 +4,6 @@ import argparse
 from pathlib import Path
 from typing import TYPE_CHECKING
 
-from rattr import error
 from rattr.cli import _arguments
 from rattr.cli._argparse import ArgumentParser
 from rattr.cli._types import TomlArgumentType
@@ -12,6 +11,7 @@ from rattr.cli._util import get_type_name, multi_paragraph_wrap
 from rattr.cli.toml import TOMLDecodeError, parse_project_toml
 from rattr.config import Arguments
 from rattr.config.util import find_pyproject_toml
+from rattr.error.error import Level
 
 if TYPE_CHECKING:
     from typing import Any, NoReturn
@@ -133,7 +133,10 @@ def _get_toml_override(
 
 def _toml_error(exc: Exception, *, exit_on_error: bool) -> NoReturn:
     if exit_on_error:
-        error.fatal(f"error parsing project toml: {error}")
+        # NOTE
+        # The config is built from the arguments being parsed here, so it does not
+        # exist yet and `error.fatal` (which consults it) can not be used
+        raise SystemExit(f"{Level.fatal.value}: error parsing project toml: {exc}")
     raise exc
 
 
